@@ -12,7 +12,7 @@ LEVEL = 'exploration'
 RULE = ('case = a rule universe (4-9 rule ASTs with shared prefixes, wildcard siblings, filter-conflicting siblings; hook rules = the rules, their '
         'truncations at segment and mid-literal positions, and "/") + a history of 1-25 operations: add(rule, methods, name?, overwrite?) | remove(rule) | remove(<Route object returned by an earlier add(), possibly stale>) | '
         'remove(name=) | remove(prefix*) | add_hook(rule, SIMPLE|PARTIAL) | remove_hook(rule), generated as one shrinkable value (model-based stateful search); '
-        'plus exhaustive enumeration of all operation sequences to depth 4 (5 in thorough) over a fixed 13-operation alphabet. Model: surviving routes keyed '
+        'plus exhaustive enumeration of all operation sequences to depth 4 (5 in thorough) over a fixed 21-operation alphabet and to depth 5 (6) over an 11-operation alphabet in which two filters compete for one position; a first registration refused by the edited router must be refused by a router freshly built from the survivors too. Model: surviving routes keyed '
         'by pattern with METHOD -> (tag, registering rule), route names, hooks keyed by pattern; an operation that raises changes nothing; known-must-reject '
         'cases (taken name, taken method) are asserted. Oracle after EVERY step, for every probe path (instantiations of all universe rules and near misses) x '
         '{GET, POST}: resolve() on the edited router == resolve() on a router freshly built from the survivors in acceptance order (handler tag, kwargs, 405 '
@@ -278,6 +278,11 @@ def run_history(ctx, case, every_step=True, wsgi=True):
                                    f'pattern is taken (model routes {_desc(model, spell)}, names {model.names})')
             if ent is not None and ent['sig'] == sg and not must_reject and not ok:
                 raise CheckFailure(f'{what}: add({text!r}, {op["methods"]}) on an existing route was rejected: {type(exc).__name__}: {str(exc)[:200]}')
+            if not ok and ent is None and not must_reject and all(all(h['known']) and not h.get('ambiguous') for h in model.hooks.values()):
+                # a first registration that the edited router refuses must be refused by a router freshly built from the survivors as well
+                # (a node left behind by earlier removals must not decide about later registrations)
+                _same_refusal(ctx, model, tags, spell, what, 'add', text, type(exc).__name__,
+                              lambda fr: fr.add(text, op['methods'], tags.handler(tag), op['name'], overwrite=op['overwrite']))
             if ok:
                 accepted_adds += 1
                 handles.append((handle, key))           # the Route object add() returned (it may be stale by the time it is used for a removal)
@@ -354,7 +359,7 @@ def run_history(ctx, case, every_step=True, wsgi=True):
                 router.add_hook(text, tags.hook(tag), hook_type=op['type'])
                 ok = True
             except Exception as e:
-                ok = False
+                ok, e_hook = False, e
             hv = model.hooks.get(key)
             if ok:
                 if hv is None:
@@ -375,6 +380,9 @@ def run_history(ctx, case, every_step=True, wsgi=True):
                 model.flags.add('hook_op')
             elif hv is not None and all(hv['known']):
                 raise CheckFailure(f'{what}: add_hook({text!r}) on a pattern that already holds hooks was rejected')
+            elif hv is None and all(all(h['known']) and not h.get('ambiguous') for h in model.hooks.values()):
+                _same_refusal(ctx, model, tags, spell, what, 'add_hook', text, type(e_hook).__name__,
+                              lambda fr: fr.add_hook(text, tags.hook(tag), hook_type=op['type']))
         elif kind == 'remove_hook':
             ast = hookable[op['hook'] % len(hookable)]
             text = R.render(ast, op['choice'], spell)
@@ -389,6 +397,20 @@ def run_history(ctx, case, every_step=True, wsgi=True):
             if wsgi and si % 5 == 4:
                 compare_wsgi(ctx, case, model, router, tags, log, what)
     return model, accepted_adds
+
+
+def _same_refusal(ctx, model, tags, spell, what, opname, text, excname, do):
+    try:
+        fresh = build_fresh(model, tags, spell)
+    except Exception:
+        return          # reported by compare()
+    try:
+        do(fresh)
+    except Exception:
+        ctx.count('refused_registration_refused_by_fresh_router_too')
+        return
+    raise CheckFailure(f'{what}: {opname}({text!r}) was refused by the edited router ({excname}) but is accepted by a router freshly built from the '
+                       f'survivors {_desc(model, spell)}, hooks {[R.render(h["ast"], (), spell) for h in model.hooks.values()]}')
 
 
 def _drop_route(model, key):
@@ -538,7 +560,21 @@ def bounded(ctx):
         {'op': 'add_hook', 'hook': 2, 'type': 0, 'choice': []},
     ]
     paths = ['/a/b', '/a/bc', '/a/x', '/a/x/c', '/ab', '/a/', '/a', '/', '/a/b/c', '/a/bcd', '/zz', '/a/report', '/a/reg']
-    depth = 4 if ctx.tier == 'quick' else 5
+    _enumerate(ctx, uni, hookable, alphabet, paths, 4 if ctx.tier == 'quick' else 5, 'bounded')
+    # second universe: two filters competing for one position (a registration is refused while a node with the other filter exists, and must be
+    # accepted again once every route and hook that needed that node is gone, however they went)
+    wi, wr = ['w', 'x', 'int', None], ['w', 'x', 're', '[a-z]+']
+    uni = [[lit('/p/'), wi], [lit('/p/'), wi, lit('/c')], [lit('/p/'), wr], [lit('/p/'), wr, lit('/d')]]
+    hookable = [[lit('/p/'), wi], [lit('/p/'), wr], [lit('/p/')]]
+    add = lambda r, m='GET': {'op': 'add', 'rule': r, 'methods': [m], 'name': None, 'overwrite': False, 'choice': []}   # noqa
+    alphabet = [add(0), add(1), add(2), add(3, 'POST'), {'op': 'remove', 'rule': 0, 'choice': []}, {'op': 'remove', 'rule': 1, 'choice': []},
+                {'op': 'remove', 'rule': 2, 'choice': []}, {'op': 'add_hook', 'hook': 0, 'type': 0, 'choice': []}, {'op': 'remove_hook', 'hook': 0, 'choice': []},
+                {'op': 'add_hook', 'hook': 1, 'type': 0, 'choice': []}, {'op': 'remove_prefix', 'hook': 2, 'choice': []}]
+    paths = ['/p/12', '/p/12/c', '/p/ab', '/p/ab/d', '/p/', '/p/12/d', '/p/ab/c', '/p/-']
+    _enumerate(ctx, uni, hookable, alphabet, paths, 5 if ctx.tier == 'quick' else 6, 'conflict')
+
+
+def _enumerate(ctx, uni, hookable, alphabet, paths, depth, label):
     seqs = list(itertools.product(range(len(alphabet)), repeat=depth))
     mine = seqs[ctx.shard::max(1, ctx.nshards)]
     for seq in mine:
@@ -549,8 +585,8 @@ def bounded(ctx):
         except CheckFailure as f:
             ctx.record_violation(case, str(f))
         if ('removal' in model.flags and adds >= 2) or 'hook_op' in model.flags or 'readd_after_removal' in model.flags:
-            ctx.nontrivial('bounded:' + repr(seq))
-    ctx.count(f'bounded_histories_depth_{depth}', len(mine))
+            ctx.nontrivial(label + ':' + repr(seq))
+    ctx.count(f'{label}_histories_depth_{depth}', len(mine))
 
 
 def large_history(ctx):
